@@ -104,7 +104,7 @@ KD_NoRawInsn(c) ==
 Tags(c) == (IF c.mode = "text" /\ KD_BranchHint(c) THEN "|KD_BranchHint" ELSE "")
            \o (IF KD_NoRawInsn(c) THEN "|KD_NoRawInsn" ELSE "")
            \o (IF c.mode = "text" /\ KD_Addr16(c) THEN "|KD_Addr16" ELSE "")
-Verdict(c) == LET v == Check(c) IN IF SubSeq(v, 1, 3) = "rej" THEN v \o Tags(c) ELSE v
+Verdict(c) == LET v == Check(c) IN IF IsPrefixStr("rej", v) THEN v \o Tags(c) ELSE v
 
 Init == idx \in DOMAIN Cases /\ verdict = "?"
 Next == verdict = "?" /\ verdict' = Verdict(Cases[idx]) /\ UNCHANGED idx
